@@ -18,7 +18,8 @@ LEVEL_TEXT = (
     "Bounded exploration: generated trees in the SQL engine, in the iteration engines and across engines (transfers, "
     "materializations, doomed and identity leaves, trivially false predicates, zero-length slices, empty windows). "
     "Without executor a doomed verdict must imply an empty true result; with an executor that answers from ground "
-    "truth the verdict must equal emptiness exactly and carry a message."
+    "truth the verdict must equal emptiness exactly and carry a message.  Every second program is first built and "
+    "diagnosed over twin leaves (same names, fewer rows) in the same engines."
 )
 LEVEL_NOTE = (
     "trusts: the harness executor answers from the reference evaluator applied to the decoded sub-relation it is handed "
